@@ -50,7 +50,21 @@ class Lin:
         return (lo, None) if self.c1 > 0 else (None, lo)
 
 
+class Rem:
+    """a % b (Python: sign of the divisor): zero iff the division is exact"""
+
+    def __init__(self, case):
+        self.case = case
+
+    def __repr__(self):
+        return "rem"
+
+
 def _cmp(op, l, r):
+    if isinstance(l, Rem) and isinstance(r, int) and r == 0:
+        e, sb = l.case["e"], l.case["sb"]
+        s = "0" if not e else sb
+        return {"Lt": s == "-", "LtE": s in "-0", "Gt": s == "+", "GtE": s in "+0", "Eq": s == "0", "NotEq": s != "0"}[op]
     if isinstance(l, Operand) and isinstance(r, int) and r == 0:
         s = l.sign
         return {"Lt": s == "-", "LtE": s in "-0", "Gt": s == "+", "GtE": s in "+0", "Eq": s == "0", "NotEq": s != "0"}[op]
@@ -99,6 +113,8 @@ def decide(mod, qualname):
                     return Lin(0, 1, case) if case["sb"] == "+" else Lin(-case["e"], -1, case)
                 if isinstance(l, Operand) and isinstance(r, AbsOperand) and l.name == "a" and r.op.name == "b":
                     return Lin(0, 1, case) if case["sa"] in "+0" else Lin(-case["e"], -1, case)
+            if op == "Mod" and isinstance(l, Operand) and isinstance(r, Operand) and l.name == "a" and r.name == "b":
+                return Rem(case)
             if isinstance(l, Lin) and isinstance(r, int):
                 if op == "Add":
                     return Lin(l.c0 + r, l.c1, case)
@@ -122,12 +138,24 @@ def decide(mod, qualname):
                 return Lin(-v.c0, -v.c1, case)
             raise AnalysisError(f"truncdiv domain: unary {op} on {v!r}")
 
-        def abs_(x):
+        def abs_(x, case=case):
             if isinstance(x, Operand):
                 return AbsOperand(x)
+            if isinstance(x, Lin):
+                lo, hi = x.rng()
+                if lo is not None and lo >= 0:
+                    return x
+                if hi is not None and hi <= 0:
+                    return Lin(-x.c0, -x.c1, case)
+                raise AnalysisError(f"truncdiv domain: sign of {x!r} is not determined by the case (abs)")
             raise AnalysisError(f"truncdiv domain: abs({x!r})")
 
-        prims = {"abs": abs_, "__binop__": binop, "__unop__": unop, "__compare__": _cmp, "int": lambda x: x}
+        def divmod_(x, y, case=case, agree=agree):
+            if isinstance(x, Operand) and isinstance(y, Operand) and x.name == "a" and y.name == "b":
+                return (Lin(0, 1, case) if agree else Lin(-case["e"], -1, case), Rem(case))
+            raise AnalysisError(f"truncdiv domain: divmod({x!r}, {y!r})")
+
+        prims = {"abs": abs_, "divmod": divmod_, "__binop__": binop, "__unop__": unop, "__compare__": _cmp, "int": lambda x: x}
         got = Interp(mod, prims).call_function(qualname, a, b)
         exp = Lin(0, 1 if agree else -1, case)
         desc = f"a{sa if sa != '0' else '=0'} b{sb} {'inexact' if e else 'exact'} {'|q|=0' if qzero else '|q|>=1'}"
